@@ -44,7 +44,10 @@ func (f *ValuesList) Call(s *slip.Scope, args slip.List, depth int) (result slip
 	case nil:
 		result = slip.Values{}
 	case slip.List:
-		result = slip.Values(list)
+		// a copy: the values (collected again by multiple-value-list) must not share the list's storage
+		vs := make(slip.Values, len(list))
+		copy(vs, list)
+		result = vs
 	default:
 		slip.TypePanic(s, depth, "argument to values-list", list, "list")
 	}
